@@ -35,6 +35,7 @@ if not ok:
 # run our checks against it: either on /repo itself (apply, check, undo) or -- while builder agents are
 # using /repo -- on the scratch worktree through VERIF_REPO (SEED_MODE=copy; same code path in bin/check)
 MODE = os.environ.get("SEED_MODE", "repo")
+VTREE = os.environ.get("SEED_VERIF", "/verif")  # a built worktree of /verif to run the check in (default /verif itself)
 target = "/repo" if MODE == "repo" else wt
 assert sh(f"git -C {target} status --porcelain")[1].strip() == "", f"{target} not clean"
 res = {}
@@ -43,7 +44,7 @@ for tier in tuple(os.environ.get("SEED_TIERS", "quick,thorough").split(",")):
     try:
         t0 = time.time()
         pre = "" if MODE == "repo" else f"VERIF_REPO={wt} "
-        rc, o = sh(f"cd /verif && {pre}bin/check {pid} {tier} 2>&1 | grep -v '^Exception in callback\\|^handle:' | tail -15", timeout=(600 if tier == "quick" else 2400))
+        rc, o = sh(f"cd {VTREE} && {pre}bin/check {pid} {tier} 2>&1 | grep -v '^Exception in callback\\|^handle:' | tail -15", timeout=(600 if tier == "quick" else 2400))
         viol = [l for l in o.splitlines() if l.startswith("VIOLATION")]
         summ = [l for l in o.splitlines() if l.startswith(f"[{pid}]")]
         res[tier] = {"violations": viol[:5], "summary": summ[-1] if summ else o[-300:], "wall_s": round(time.time() - t0)}
@@ -56,7 +57,7 @@ for tier in tuple(os.environ.get("SEED_TIERS", "quick,thorough").split(",")):
         res[tier] = {"violations": [], "summary": f"NO VERDICT: bin/check {pid} {tier} did not finish within the limit on this change", "wall_s": -1}
     finally:
         sh(f"git -C {target} checkout -- .")
-        sh(f"git -C /verif checkout -- evidence/{pid}.json")
+        sh(f"git -C {VTREE} checkout -- evidence/{pid}.json")
     if res[tier]["violations"]:
         break
 meta["check"] = res
@@ -69,6 +70,6 @@ notes = open(f"{out}/NOTES.md").read() if os.path.exists(f"{out}/NOTES.md") else
 meta["needs_to_manifest"] = "see NOTES.md excerpt"; meta["breaker_notes"] = notes[:20000]
 meta["what_was_run"] = f"scratch worktree {wt}: demo on pinned tree (rc {rc0}), full pytest suite with the change ({line}), demo with the change (rc {rc1}); then " + ("`git -C /repo apply patch.diff; bin/check {pid} <tier>; git -C /repo checkout -- .`" if MODE == "repo" else f"patch applied in the scratch worktree and `VERIF_REPO={wt} bin/check {pid} <tier>` (builders were using /repo at the time)")
 json.dump(meta, open(f"{d}/meta.json", "w"), indent=1)
-sh("rm -rf /verif/evidence/replay")
-sh(f"git -C /verif checkout -- evidence/{pid}.json")  # the run on the changed tree rewrote it
+sh(f"rm -rf {VTREE}/evidence/replay")
+sh(f"git -C {VTREE} checkout -- evidence/{pid}.json")  # the run on the changed tree rewrote it
 print("DETECTED" if meta["detected"] else "MISSED", json.dumps(res, indent=1)[:1500])
